@@ -138,6 +138,23 @@ fn check_world_vs_model(world: &mut World, model: &Model, leaks: &Leaks, step: u
                         step, t, d
                     )));
                 }
+                // the checked downcasts of the trait object agree: Some for the id's type, None for
+                // another one
+                let other = (t + 1) % NWT as u8;
+                let casts = {
+                    let r = world.get_mut_raw(wrid(t, d)).expect("present");
+                    let own_ref = with_wt!(t, T, r.downcast_ref::<T>().map(|v| v.id()));
+                    let other_ref = with_wt!(other, T, r.downcast_ref::<T>().is_some());
+                    let own_mut = with_wt!(t, T, r.downcast_mut::<T>().map(|v| v.id()));
+                    let other_mut = with_wt!(other, T, r.downcast_mut::<T>().is_some());
+                    (own_ref, other_ref, own_mut, other_mut)
+                };
+                if casts != (Some(model[&(t, d)]), false, Some(model[&(t, d)]), false) {
+                    return Err(Fail::new(format!(
+                        "after step {}: downcast_ref / downcast_mut of the value under (type {}, dynamic id {}) give (own, other type {}, own mut, other mut) = {:?}, expected the value {} for its own type and nothing for the other",
+                        step, t, d, other, casts, model[&(t, d)]
+                    )));
+                }
                 // identity of the stored value (through an exclusive fetch: nothing may be borrowed;
                 // slots with a forgotten guard are read through get_mut, which ignores the flag)
                 let real = with_wt!(t, T, {
